@@ -104,6 +104,17 @@ class Closure:
                     return "upper", inner[1]
         return None
 
+    def _role_through_index(self, e, env):
+        """bounds role of e, also when e picks some coordinates of a bounds column (`lower[genes]`)"""
+        r = self.bounds_role(e, env)
+        if r:
+            return r
+        if isinstance(e, ast.Subscript):
+            inner = self.bounds_role(e.value, env)
+            if inner and inner[0] in ("lower", "upper"):
+                return inner
+        return None
+
     def val(self, e, env):
         """-> (kind, closure) kind in pop/arr/s01/bnd/other"""
         if e is None:
@@ -178,6 +189,21 @@ class Closure:
             a, b = term(e.left), term(e.right)
             if a and b and a[1] == b[1] and {a[0], b[0]} == {"w", "1-w"}:
                 return ("arr", _join(a[2], b[2]))
+        if isinstance(e.op, ast.Add):
+            # hand-made affine map of a unit draw:  lower + u * W   with u in [0, 1)
+            for a_, b_ in ((e.left, e.right), (e.right, e.left)):
+                ra = self._role_through_index(a_, env)
+                if ra and ra[0] == "lower" and isinstance(b_, ast.BinOp) and isinstance(b_.op, ast.Mult):
+                    for u_, w_ in ((b_.left, b_.right), (b_.right, b_.left)):
+                        if self.val(u_, env)[0] == "s01" or (isinstance(u_, ast.Call) and norm(u_.func) in ("np.random.rand", "np.random.random", "np.random.random_sample", "np.random.uniform") and (norm(u_.func) != "np.random.uniform" or not [x for x in u_.args[:2]])):
+                            if isinstance(w_, ast.BinOp) and isinstance(w_.op, ast.Sub):
+                                rl, rr = self._role_through_index(w_.left, env), self._role_through_index(w_.right, env)
+                                if rl and rr and rl[0] == "upper" and rr[0] == "lower" and rl[1] == rr[1] == ra[1]:
+                                    return ("arr", C)
+                            rw = self._role_through_index(w_, env)
+                            if rw and rw[0] in ("upper", "lower"):
+                                self.notes.append(f"L{e.lineno}: `{norm(e)[:80]}` scales the unit draw by the {rw[0]} bound itself, not by the span upper - lower: the result lies in [lower, lower + {rw[0]}], outside the box whenever that differs from [lower, upper]")
+                                return ("arr", O)
         l, r = self.val(e.left, env), self.val(e.right, env)
         if l[0] == "arr" or r[0] == "arr":
             self.notes.append(f"L{e.lineno}: arithmetic on genomes `{norm(e)[:70]}` leaves the box")
